@@ -3,6 +3,7 @@ package main
 import (
 	"fmt"
 	"os"
+	"runtime/pprof"
 	"sort"
 	"strings"
 )
@@ -20,6 +21,12 @@ func main() {
 		os.Exit(2)
 	}
 	code := 2
+	if pf := os.Getenv("MAMBA_PROF"); pf != "" {
+		if f, err := os.Create(pf); err == nil {
+			pprof.StartCPUProfile(f)
+			defer pprof.StopCPUProfile()
+		}
+	}
 	func() {
 		defer func() {
 			if r := recover(); r != nil {
@@ -75,6 +82,7 @@ func main() {
 			code = runProperty(os.Args[1], tier, os.Args[3:])
 		}
 	}()
+	pprof.StopCPUProfile()
 	os.Exit(code)
 }
 
